@@ -312,6 +312,8 @@ pub fn run(prop: &str) {
         }
         let t: Vec<&str> = req.split(' ').collect();
         let before = eng.snap(&sid);
+        // the same swap on a copy WITHOUT the virtual inventory (C04: worse-of-the-two rule)
+        let probe = if prop == "C04" && t.get(1) == Some(&"swap") && before.as_ref().map(|b| b.vi_swaps.is_some()).unwrap_or(false) { eng.probe_without_vi(&sid, "swap", &t[3..]) } else { None };
         let resp = eng.exec(&req);
         let after = eng.snap(&sid);
         let (r, _) = split_resp(&resp);
@@ -327,6 +329,16 @@ pub fn run(prop: &str) {
                 let c = &cfgs[&sid];
                 let fee_zero = c[5] == 0 && c[6] == 0;
                 if prop == "C04" { oracle_c04(&mut out, &req, &t, &r, b, a); }
+                if let (Some(pr), "ok") = (probe.as_ref(), r[0]) {
+                    let pt: Vec<&str> = pr.split(' ').collect();
+                    if pt[0] == "ok" {
+                        let (with_vi, without): (i128, i128) = (r[2].parse().unwrap(), pt[2].parse().unwrap());
+                        out.stat("swap.vi_probe");
+                        if with_vi > without { out.oracle_fail("swap: the impact with a virtual inventory is better than the impact on the real pool alone", &req); }
+                        if without >= 0 && with_vi != without { out.oracle_fail("swap: a non-negative real impact was changed by the virtual inventory", &req); }
+                        if with_vi < without { out.stat("swap.vi_made_it_worse"); }
+                    }
+                }
                 if prop == "C05" { oracle_c05(&mut out, &req, &t, &r, b, a, fee_zero); }
                 nt = swap_stats(&mut out, &t, &r, b, a);
                 if let Some(m) = mem.get_mut(&sid) { m.last_deposit = None; }
